@@ -201,7 +201,7 @@ def _setup(m: AccfgMachine, op, vals, core):
         d.written.add(name)
         d.known.add(name)
     if m.log_setups:
-        m.hist.append(("setup", d.name, tuple((n, m.get(vals, v)) for n, v in op.iter_params()), dict(d.regs), frozenset(d.known)))
+        m.hist.append(("setup", d.name, tuple((n, m.get(vals, v)) for n, v in op.iter_params()), dict(d.regs), frozenset(d.known), op.in_state is not None))
     m.evid += 1
     d.last_writer = ("setup", m.evid)
     vals[op.out_state] = ("state", d.last_writer)
